@@ -426,7 +426,7 @@ class _Break(Exception):
     pass
 
 
-ELEMENTWISE_IDENTITY = {"astensor", "tile", "reshape", "tolist", "asarray", "array", "ravel", "broadcast_to", "to_numpy", "float", "transpose", "squeeze", "expand_dims", "copy", "detach", "constant", "convert_to_tensor", "cast", "as_tensor", "tensor", "deepcopy"}
+ELEMENTWISE_IDENTITY = {"astensor", "tile", "reshape", "tolist", "asarray", "array", "ravel", "broadcast_to", "to_numpy", "float", "transpose", "squeeze", "expand_dims", "copy", "detach", "constant", "convert_to_tensor", "cast", "as_tensor", "tensor"}
 OPAQUE_FNS = {"log", "exp", "sqrt", "xlogy", "gammaln", "lgamma", "erf", "erfc", "normal_cdf", "log1p", "expm1", "ndtr", "log_ndtr"}
 MODULE_NAMES = {"tensorlib", "default_backend", "np", "numpy", "math", "jnp", "tb", "torch", "tf", "special", "scipy", "jax", "tfp", "self"}
 
@@ -913,6 +913,8 @@ class Interp:
         args = e.args
         kw = {k.arg: k.value for k in e.keywords if k.arg}
         ev = self.eval
+        if name == "deepcopy" and args:
+            return _deepcopy_value(ev(args[0]))
         if name in ELEMENTWISE_IDENTITY:
             if not args:
                 raise Undecided(f"{name}()")
@@ -1088,6 +1090,18 @@ class Interp:
         if name == "set" and isinstance(f, ast.Name):
             return set(ev(args[0])) if args else set()
         raise Undecided(f"call {A.short(e.func, 40)}")
+
+
+def _deepcopy_value(v):
+    if isinstance(v, list):
+        return [_deepcopy_value(x) for x in v]
+    if isinstance(v, tuple):
+        return tuple(_deepcopy_value(x) for x in v)
+    if isinstance(v, dict):
+        return {k: _deepcopy_value(x) for k, x in v.items()}
+    if isinstance(v, set):
+        return set(v)
+    return v
 
 
 def _as_load(t):
